@@ -1,9 +1,9 @@
 package rules
 
 import (
-	"go/types"
 	"fmt"
 	"go/token"
+	"go/types"
 	"strings"
 
 	"golang.org/x/tools/go/ssa"
@@ -25,7 +25,7 @@ func init() {
 			"(O-1) no value that denotes a data file (the personal notebook path from Config, the history path of SearchHistory) reaches, through parameters, cells and identity-like path functions over the whole call graph, the path argument of a truncating or in-place opener (os.WriteFile, os.Create, os.OpenFile with write flags, os.Truncate); " +
 			"(O-2) the data paths do reach the destination of an os.Rename, and the function that renames follows the protocol: temporary created in filepath.Dir(dest), Write and Close on that temporary dominate the Rename, the error of each of CreateTemp/Write/Close blocks every later step, and no nil return is reachable unless the Rename succeeded; both writers (writePersonalDatabase, SearchHistory.Save) hand the marshalled bytes and the data path to that function and propagate its error; " +
 			"(O-3) saveToPersonalDatabase propagates the write error and both save commands, when it is non-nil, print only messages that carry the error and return. Atomicity of rename(2) itself and durability across power loss are operating-system assumptions.",
-		NotDecided: []string{"atomicity of rename(2) and behaviour of the file system under power loss", "that a crash between Write and Rename leaves a stray temporary file (harmless for the property)", "whether the search command reports history-save failures (the property only requires that they do no damage)"},
+		NotDecided:  []string{"atomicity of rename(2) and behaviour of the file system under power loss", "that a crash between Write and Rename leaves a stray temporary file (harmless for the property)", "whether the search command reports history-save failures (the property only requires that they do no damage)"},
 		Assumptions: []string{"rename(2) within one directory atomically replaces the destination", "os.File.Write reports short writes as errors"},
 		Run:         runC09,
 	})
